@@ -6,6 +6,7 @@ use std::panic::{catch_unwind, AssertUnwindSafe};
 
 mod util;
 mod val;
+mod wal;
 mod wire;
 
 fn main() {
@@ -38,6 +39,7 @@ fn main() {
         let r = catch_unwind(AssertUnwindSafe(|| match mode {
             "wire" => wire::run(&toks),
             "val" => val::run(&toks),
+            "wal" => wal::run(&toks),
             _ => panic!("unknown mode"),
         }));
         let s = match r {
